@@ -47,11 +47,12 @@ def rule1_c(ctx, v):
            'left half in a new thread running the same function, right half by direct recursion', loc=f.loc)
     base = []
     for ic in f.order:
-        if ic.op == 'icmp' and ic.pred in ('eq', 'ne') and const_int(ic.ops[1]) == 1:
-            a = affine(f, ic.ops[0])
-            lb = [k for k in a if k in f.insts and f.insts[k].op == 'load' and f.field(f.insts[k]) == ARG + 'b']
-            la = [k for k in a if k in f.insts and f.insts[k].op == 'load' and f.field(f.insts[k]) == ARG + 'a']
-            if len(lb) == 1 and len(la) == 1 and a[lb[0]] == 1 and a[la[0]] == -1 and len([k for k in a if k != '']) == 2:
+        if ic.op == 'icmp' and ic.pred in ('eq', 'ne'):
+            # any arrangement of  b - a == 1
+            d = lib.affine_diff(f, ic.ops[0], ic.ops[1])
+            lb = lib.load_terms(f, d, ARG + 'b')
+            la = lib.load_terms(f, d, ARG + 'a')
+            if len(lb) == 1 and len(la) == 1 and len([k for k in d if k != '']) == 2 and d[lb[0]] == -d[la[0]] and d.get('', 0) == -d[lb[0]]:
                 base.append(ic)
     ctx.ob('C17.1', 'C aux: base case b - a == 1', len(base) == 1, 'the leaf test compares the range length with 1', loc=f.loc)
     for r in rec + cr:
